@@ -28,6 +28,7 @@ def main(argv=None):
     c.add_argument("--tier", default=os.environ.get("VERIF_TIER", "quick"), choices=["quick", "thorough"])
     c.add_argument("--only-key", default=None)
     sub.add_parser("selfcheck")
+    sub.add_parser("refnames")
     st = sub.add_parser("selftest")
     st.add_argument("pids", nargs="*")
     st.add_argument("--jobs", type=int, default=16)
@@ -54,6 +55,16 @@ def main(argv=None):
             print(f"ANALYSIS-ERROR selfcheck {e}")
             return 2
         print(f"selfcheck: {len(ALL_UNITS)} units parsed, {n} functions indexed")
+        return 0
+    if args.cmd == "refnames":
+        # maintainers' command: record the locals of the reference tree (recognition aid of alpha.py); never run by a check
+        import json
+        from . import alpha
+        from .core import REPO
+        from .units import ALL_UNITS
+        t = alpha.build_table(REPO, ALL_UNITS)
+        alpha.TABLE.write_text(json.dumps(t, indent=0, sort_keys=True))
+        print(f"refnames: {sum(len(v) for v in t.values())} functions of {len(t)} units recorded in {alpha.TABLE}")
         return 0
     if args.cmd == "selftest":
         from .selftest import run_selftest
